@@ -18,6 +18,7 @@ ATOMS = [None, True, False, 0, 1, -1, 2, 3, 1.0, 1.5, 0.5, "", "a", "b", "ab", "
 ATOMS_T = ATOMS + ["é", "\U0001F600", "aab", 2.0, -0.0, 10, 0.25]
 
 EXTRA = [
+    {"a": None}, {"a": None, "b": 0}, [None], [0, None], [[2], [1]], [[1, "b"], [1, "a"]],
     {"ba": 0, "ab": "a"}, {"a": {"a": 0}}, {"a": [0, "a"]}, [[0], [0]], [[1], [1.0]],
     [{"a": 1}, {"a": 1.0}], {"aa": 0, "bc": 1}, [0, 1, 2], ["a", "a", "b"],
     [0, [0, "a"]], {"a": {"b": "a"}, "b": 1}, [{"a": 0}], [["a"]],
@@ -61,7 +62,8 @@ def universe_pairs_quick():
     u += list(arrays([0, 1, "a"], 2))
     u += [[True], [[]], [0, []], [{}]]
     u += list(objects([(), ("a",), ("b",), ("a", "b"), ("b", "ab")], [0, "a"]))
-    u += [{"ba": 0, "ab": "a"}, {"a": 1, "b": 1}, {"a": {"a": 0}}, {"a": [0, "a"]}, [[0], [0]], {"aa": 0, "bc": 1},
+    u += [{"a": None}, {"a": None, "b": 0}, [None], [[2], [1]],
+          {"ba": 0, "ab": "a"}, {"a": 1, "b": 1}, {"a": {"a": 0}}, {"a": [0, "a"]}, [[0], [0]], {"aa": 0, "bc": 1},
           [0, 1, 2], ["a", "a", "b"], [{"a": 0}]]
     return dedup(u)
 
@@ -70,7 +72,8 @@ def universe_small():
     """~25 instances: every JSON type, most of them with several violations available."""
     return [None, True, 0, 1, 1.5, -1, "", "a", "ab", "aa", [], [0], [0, "a"], ["a", "a"], [1, 1.0],
             [0, 1, 2], [[0], [0]], {}, {"a": 0}, {"b": "a"}, {"a": "a", "b": 0}, {"b": 0, "ab": 0},
-            {"aa": 0, "bc": 1}, {"a": {"a": 0}}, {"a": [0, "a"]}, {"ba": 0, "ab": "a"}]
+            {"aa": 0, "bc": 1}, {"a": {"a": 0}}, {"a": [0, "a"]}, {"ba": 0, "ab": "a"}, {"a": None, "b": 0},
+            [[2], [1]], [None, 0]]
 
 
 def universe_distinct_leaves():
@@ -81,6 +84,7 @@ def universe_distinct_leaves():
         [1, 1, "a"], {"a": [10, "x", None], "b": {"a": "y", "b": 2.5}}, [["p", 7], ["q", 8]],
         {"ab": {"a": 1, "b": "t"}, "a": 0}, [{"a": 1, "b": 2}, {"a": "u"}, 3],
         {"0": "s", "12": [10, {"7": None}], "a": {"0": 1.5}},      # property names made of digits only
+        {"a": None, "b": [None, [12, 11]]},                         # null members; an unsorted array of arrays
         # names whose rendering collides with a nested location ($.a.b, $.c[0])
         {"a.b": 1, "a": {"b": "s"}, "c[0]": None, "c": [2.5, "t"]},
     ]
